@@ -23,7 +23,7 @@ RULE = ("cases: PDAG codes (one base-4 digit per node pair) with acyclic directe
         ' Also: relabelled embeddings of all p<=4 and sampled p=5 PDAGs, array presentations, debug=True, repeat after the caller overwrote the result.')
 ASSUMPTIONS = ["brute-force oracle correct", "maximally_orient is only judged on PDAGs that admit an extension (the property's scope)"]
 EXHAUSTIVE = {"quick": True, "thorough": True}
-SOFT_LIMIT = {"quick": 240, "thorough": 1700}
+SOFT_LIMIT = {"quick": 1200, "thorough": 5400}      # generous wall-clock watchdogs (a loaded machine must not cut a workload short); normal run times are in the evidence
 REQUIRED_FUNCS = ["sempler/utils.py:pdag_to_dag", "sempler/utils.py:has_consistent_extension", "sempler/utils.py:maximally_orient"]
 REQUIRED_COUNTERS = {"quick": {"ext:none": 100, "ext:some": 1000, "meek:oriented-something": 100,
                                },
